@@ -155,8 +155,10 @@ def w_fp(cfg, tier):
         def probability_distribution(self, code_, error_rate):
             return tuple(as_sa([SymFP(t) for t in Q[s]]) for s in 'IXYZ')
     del core.FP_LN_APPS[:]
-    eng = Engine(name=cfg)
+    eng = Engine(name=cfg, incremental=False, max_paths=200)
     with eng:
+        for c in base:
+            eng.assume_base(c)        # branches on the factors (e.g. a mask `factor > 0`) are decided under the domain
         ps = eng.explore(lambda: BaseErrorModel.error_probability(Model(1 / 3, 1 / 3, 1 / 3), e, code, 0.1,
                                                                   log_output=True))
     col.absorb(eng)
@@ -165,7 +167,8 @@ def w_fp(cfg, tier):
     for p in ps:
         if p.exc is not None or not isinstance(p.value, SymFP):
             col.record('C18/fp/log-form-is-a-double', 'sat' if p.exc is not None else 'unknown', 0, True, None,
-                       f'{type(p.exc).__name__ if p.exc is not None else type(p.value).__name__}: {p.exc}')
+                       f'{type(p.exc).__name__ if p.exc is not None else type(p.value).__name__}: '
+                       f'{p.exc if p.exc is not None else p.value}')
             continue
         r = p.value.t
         terms = base + contract + p.pc + [z3.Or(z3.fpIsInf(r), z3.fpIsNaN(r))]
